@@ -11,6 +11,8 @@ import (
 type chanState struct {
 	o       objState
 	ch      reflect.Value // keeps the channel alive: no address reuse within an execution
+	recv    reflect.Value // a view of the channel that permits receiving (the code under test may hold directional views)
+	send    reflect.Value // a view that permits sending
 	closed  bool
 	pending []*pendingSend
 	ver     uint64
@@ -35,6 +37,13 @@ func (s *Sched) chanOf(c interface{}) (*chanState, reflect.Value) {
 		cs = &chanState{o: objState{id: s.objID()}, ch: v}
 		s.chans[p] = cs
 	}
+	d := v.Type().ChanDir()
+	if d&reflect.RecvDir != 0 && !cs.recv.IsValid() {
+		cs.recv = v
+	}
+	if d&reflect.SendDir != 0 && !cs.send.IsValid() {
+		cs.send = v
+	}
 	return cs, v
 }
 
@@ -48,14 +57,14 @@ func closedProbe(cs *chanState) bool {
 	if cs.closed {
 		return true
 	}
-	if cs.ch.Len() > 0 {
-		return false
+	if cs.ch.Len() > 0 || !cs.recv.IsValid() {
+		return false // (no receiving view seen yet: only a registered Close could have closed it, and that sets cs.closed)
 	}
 	// A select with a default on an empty open channel takes the default; on a closed channel it
 	// takes the receive case with ok=false. Nothing can be consumed because no registered thread
 	// is blocked in a real send (sends of registered threads go through Send).
 	chosen, _, ok := reflect.Select([]reflect.SelectCase{
-		{Dir: reflect.SelectRecv, Chan: cs.ch},
+		{Dir: reflect.SelectRecv, Chan: cs.recv},
 		{Dir: reflect.SelectDefault},
 	})
 	if chosen == 0 && !ok {
@@ -77,7 +86,7 @@ func recvReady(cs *chanState) bool {
 
 func (s *Sched) tryRecv(cs *chanState) (reflect.Value, bool, bool) {
 	if cs.ch.Len() > 0 {
-		x, ok := cs.ch.TryRecv()
+		x, ok := cs.recv.TryRecv()
 		s.chanChanged(cs)
 		return x, ok, true
 	}
@@ -161,7 +170,7 @@ func Send(c interface{}, val interface{}) {
 	if cs.ch.Cap() > 0 {
 		for {
 			if cs.ch.Len() < cs.ch.Cap() {
-				if !cs.ch.TrySend(x) {
+				if !cs.send.TrySend(x) {
 					panic("vrt: TrySend failed on a non-full channel")
 				}
 				s.chanChanged(cs)
@@ -266,7 +275,7 @@ func Select(hasDefault bool, cases []Case) (int, interface{}, bool) {
 				panic("send on closed channel")
 			}
 			x := reflect.ValueOf(cases[i].Val)
-			if !cs.ch.TrySend(x) {
+			if !cs.send.TrySend(x) {
 				panic("vrt: TrySend failed in select")
 			}
 			s.chanChanged(cs)
